@@ -115,7 +115,7 @@ Theorem C16_definition_in_file_mode : forall B t f ps body lc mc c m,
 Proof. exact def_step_nostck. Qed.
 Print Assumptions C16_definition_in_file_mode.
 
-(* the premises hold for the demonstration session of C01 on the machine after builtin.Load, and the session
+(* the premises hold for the demonstration session of C01 on the machine after builtin.Load and a first statement, and the session
    computes in file mode: no values, the same errors *)
 Example C16_demo_in_both_modes : pair false true [] [] vm_tab vm_tab mc_after_first mc_after_first demo_items.
 Proof.
